@@ -125,7 +125,7 @@ class Votes(object):
             d = self.v.setdefault(cur, {})
             d[ref] = d.get(ref, 0) + 1
 
-    def mapping(self, cooccur=None):
+    def mapping(self, cooccur=None, solo=None):
         """Best reference name per current name.  Two current names may share one reference name only when they
         never occur together in one top-level statement (e.g. a comprehension variable and a loop variable that the
         reference spells alike); otherwise the higher vote wins."""
@@ -139,6 +139,8 @@ class Votes(object):
             holders = taken.get(ref, [])
             if holders and (cooccur is None or any(cooccur(cur, h) for h in holders)):
                 continue
+            if holders and solo is not None and (cur in solo or any(h in solo for h in holders)):
+                continue        # a variable that is assigned keeps a name of its own: both may be live at once
             taken.setdefault(ref, []).append(cur)
             out[cur] = ref
         return out
@@ -261,7 +263,21 @@ def normalise_function(cur, ref):
         return acc
     fine = stmt_names(cur.body, [])
     cooccur = lambda a, b: any(a in g and b in g for g in fine)
-    full = votes.mapping(cooccur)
+    # names bound by anything but a loop / comprehension target or a lambda parameter
+    solo = set()
+    for n in ast.walk(cur):
+        if isinstance(n, (ast.Assign, ast.AugAssign, ast.AnnAssign, ast.NamedExpr, ast.withitem, ast.Delete)):
+            tg = n.targets if isinstance(n, (ast.Assign, ast.Delete)) else [getattr(n, "target", None) or getattr(n, "optional_vars", None)]
+            for t in tg:
+                if t is not None:
+                    solo |= {x.id for x in ast.walk(t) if isinstance(x, ast.Name)}
+        elif isinstance(n, FuncTypes + (ast.ClassDef,)) and n is not cur:
+            solo.add(n.name)
+        elif isinstance(n, ast.ExceptHandler) and n.name:
+            solo.add(n.name)
+        elif isinstance(n, ast.alias):
+            solo.add((n.asname or n.name).split(".")[0])
+    full = votes.mapping(cooccur, solo)
     # names of nested functions / classes are never merged with anything else: two definitions of one name in a scope
     # would shadow each other
     defnames = {n.name for n in ast.walk(cur) if isinstance(n, FuncTypes + (ast.ClassDef,)) and n is not cur}
